@@ -41,6 +41,21 @@ def check(P, R):
     check_handle(P, R)
     check_cast(P, R)
     check_closeiter(P, R)
+    # the Content-Length that _cast adds is written into the live response's own header dictionary: applying a returned / raised response
+    # must copy its headers, not hand its dictionary over (a shared error object would keep the length of an earlier page)
+    from . import c09
+
+    class _Sub:
+        def __init__(self, R_):
+            self._R = R_
+
+        def ob(self, rule, *a, **kw):
+            kw['why'] = 'Content-Length equals the bytes returned, also when the same response object answers two requests'
+            return self._R.ob('C03.e' if rule == 'C09.c' else rule, *a, **kw)
+
+        def __getattr__(self, k):
+            return getattr(self._R, k)
+    c09.check_apply(P, _Sub(R))
 
 
 def check_wsgi(P, R):
